@@ -42,9 +42,10 @@ def run(ctx, rep):
         site = {'file': b['file'], 'line': b['line']}
         name = qual.split('::')[-1]
         calls = b['calls']
-        reads = [c for c in calls if any(c['callee'] == r or c['callee'].endswith(r.split('::', 1)[-1]) for r in WHOLE_READ)]
-        partial = [c for c in calls if any(p in c['callee'] for p in PARTIAL_READ) or c['callee'].endswith('File::open')]
-        writes = [c for c in calls if c08.WRITE_API.search(c['callee']) and not c['callee'].endswith(('create_dir_all', 'create_dir'))]
+        reads = [c for c in calls if is_whole_read(c)]
+        partial = [c for c in calls if not is_whole_read(c) and (any(p in c['callee'] for p in PARTIAL_READ) or c['callee'].endswith('File::open'))]
+        oo_names = {c['callee'].split('::')[-1] for c in calls if 'OpenOptions' in c['callee']}
+        writes = [c for c in calls if is_write_event(c, oo_names)]
         eqs = [c for c in calls if c['callee'].endswith('PartialEq<std::vec::Vec<U, A2>>>::eq') or re.search(r'PartialEq.*::eq$|PartialEq.*::ne$', c['callee'])]
         eqs = [c for c in eqs if any('u8' in t for t in c.get('arg_tys', []))]
         # logic moved into local helpers: a helper that wraps the whole-file read counts as the read; a bool helper that
@@ -56,10 +57,10 @@ def run(ctx, rep):
                     continue
                 hr = prog.region([h])
                 hcalls = [x for k2 in hr for x in prog.bodies[k2]['calls']]
-                h_reads = [x for x in hcalls if any(x['callee'] == r or x['callee'].endswith(r.split('::', 1)[-1]) for r in WHOLE_READ)]
+                h_reads = [x for x in hcalls if is_whole_read(x)]
                 h_eqs = [x for x in hcalls if re.search(r'PartialEq.*::(eq|ne)$', x['callee']) and any('u8' in t for t in x.get('arg_tys', []))]
                 h_writes = [x for x in hcalls if c08.WRITE_API.search(x['callee'])]
-                partial_h += [x for x in hcalls if any(p in x['callee'] for p in PARTIAL_READ) or x['callee'].endswith('File::open')]
+                partial_h += [x for x in hcalls if not is_whole_read(x) and (any(p in x['callee'] for p in PARTIAL_READ) or x['callee'].endswith('File::open'))]
                 if h_reads and not h_writes and h_eqs and prog.bodies[h]['locals'].get('_0') == 'bool':
                     cmp_helpers.append((c, h))
                 elif h_reads and not h_writes and not h_eqs:
@@ -70,6 +71,8 @@ def run(ctx, rep):
             rep.check(okh, 'W4', f"{name}:compare-helper:{prog.bodies[h]['id'].split('::')[-1]}", 'helper is true exactly when the file could be read and its bytes equal the argument', f"{name} decides through {prog.bodies[h]['id']}, {whyh}", {'file': prog.bodies[h]['file'], 'line': prog.bodies[h]['line']})
             reads.append(c)
             eqs.append(dict(c, callee=c['callee'] + '::eq', via_helper=True))
+        # W5 truncating primitives (decided independently of W4)
+        truncating(prog, b, ks[0], rep, name, site, writes)
         rep.check(bool(writes), 'W4', f'{name}:writes', 'write primitive present', f'{name}: no write primitive found', site)
         rep.check(bool(reads) and not partial, 'W4', f'{name}:whole-file-read', 'old content read completely (fs::read)', f"{name} reads the existing file with {sorted({c['callee'].split('::')[-1] for c in partial}) or 'nothing'} instead of a whole-file read: a file that merely *starts* with the new output compares equal and is left untouched (stale tail kept)", site)
         if not (reads and writes and eqs):
@@ -80,16 +83,13 @@ def run(ctx, rep):
             # on the path where the read succeeded, the write is only reachable through the equality test
             through_eq = any(e.get('via_helper') and prog.dominates(b, e['bb'], wr['bb']) for e in eqs)   # helper: read and test are one call
             for r in reads:
-                rs = c08.moved_set(b, r['dest'].split(' ')[0])
-                for i, blk in enumerate(b['blocks']):
-                    dm = [re.match(r'(_\d+) = discriminant\((_\d+)\)', st) for st in blk['stmts']]
-                    dm = [m for m in dm if m and m.group(2) in rs]
-                    sw = re.match(r'switchInt\((?:move|copy) (_\d+)\) -> \[0: bb(\d+)', blk['term'])
-                    if dm and sw and sw.group(1) == dm[-1].group(1):
-                        ok_bb = int(sw.group(2))
-                        avoid = {e['bb'] for e in eqs}
-                        if wr['bb'] not in prog.reachable_blocks(b, ok_bb, avoid=avoid):
-                            through_eq = True
+                ok_bbs = read_ok_targets(b, r, prog)
+                avoid = {e['bb'] for e in eqs}
+                if ok_bbs is None:
+                    # the outcome of the read is never inspected: both outcomes continue together and must pass the test
+                    ok_bbs = [r['bb']]
+                if prog.dominates(b, r['bb'], wr['bb']) and all(wr['bb'] not in prog.reachable_blocks(b, ob, avoid=avoid) for ob in ok_bbs):
+                    through_eq = True
             rep.check(dom and through_eq, 'W4', f"{name}:compare-dominates:{wr['callee'].split('::')[-1]}", 'after a successful read the write is only reachable through the equality test', f"{name}: `{wr['callee'].split('::')[-1]}` can be reached after a successful read of the old content without the equality test — an unchanged file is rewritten (mtime changes)", {'file': wr['file'], 'line': wr['line']})
         # equal branch must not reach a write
         for e in eqs:
@@ -116,17 +116,6 @@ def run(ctx, rep):
         else:
             same = cmp_v == wr_v
             rep.check(same, 'W4', f'{name}:same-bytes', f'compared and written value: {cmp_v}', f"{name}: the existing file is compared with `{cmp_v}` but `{wr_v}` is written — the comparison can never succeed for content this function wrote itself, so the file is rewritten on every run (mtime not preserved)", site)
-        # W5 truncating primitives
-        oo = [c for c in calls if 'OpenOptions' in c['callee']]
-        if oo:
-            names = {c['callee'].split('::')[-1] for c in oo}
-            ok = ('truncate' in names or 'create_new' in names) and 'append' not in names
-            rep.check(ok, 'W5', f'{name}:truncating', f'OpenOptions chain {sorted(names)}', f"{name} opens the output with OpenOptions {sorted(names)} — without truncate(true) a shorter new output leaves the tail of the previous file in place; with append the old content is kept", site)
-        else:
-            prim = sorted({c['callee'].split('::')[-1] for c in writes})
-            rep.check(set(prim) <= {'write', 'create'}, 'W5', f'{name}:truncating', f'{prim} (truncate by contract)', f'{name}: unexpected write primitives {prim}', site)
-        app = [c for c in calls if c['callee'].endswith(('OpenOptions::append', 'fs::rename', 'File::set_len', 'Seek>::seek'))]
-        rep.check(not app, 'W5', f'{name}:no-append-rename-seek', 'no append / rename / seek', f"{name} uses {[c['callee'] for c in app][:2]}", site)
     # informational
     rep.note('check_write_file skips writing when the new output is empty: an older non-empty file stays in place (not part of the decided clause).')
     # W8: a successful run always reaches the writer — no early success exit ("nothing to do" shortcuts decided from
@@ -161,6 +150,80 @@ def run(ctx, rep):
             o2['key'] = 'W7:' + o['key'].split(':', 1)[1]
             rep.obligations.append(o2)
     rep.floor('W7', 'hash-order consumer sites (from C06 D1)', n, 8)
+
+
+def derived_set(body, start):
+    """Locals whose value derives from `start`: plain moves/copies/Some wraps, and results of calls that take a derived
+    local as an argument (with_context, map_err, Try::branch, From::from ... — the Result of a read on its way to a test)."""
+    s = set(c08.moved_set(body, start))
+    changed = True
+    while changed:
+        changed = False
+        for c in body['calls']:
+            d = (c.get('dest') or '').split(' ')[0]
+            if d and d not in s and any(re.search(rf'\b(move|copy) {x}\b', a) for a in c['args'] for x in s):
+                s |= c08.moved_set(body, d)
+                changed = True
+    return s
+
+
+def read_ok_targets(body, r, prog=None):
+    """Blocks entered when the read succeeded: the `0` targets (Ok / Continue) of every switch on the discriminant of a value
+    derived from the read's result; None when the result is never inspected."""
+    rs = derived_set(body, r['dest'].split(' ')[0])
+    out = []
+    for blk in body['blocks']:
+        dm = [re.match(r'(_\d+) = discriminant\((_\d+)\)', st) for st in blk['stmts']]
+        dm = [m for m in dm if m and m.group(2) in rs]
+        sw = re.match(r'switchInt\((?:move|copy) (_\d+)\) -> \[0: bb(\d+)', blk['term'])
+        if dm and sw and sw.group(1) == dm[-1].group(1):
+            out.append((body['blocks'].index(blk), int(sw.group(2))))
+    # the outcome is decided at the first inspection; later switches on the same value (drop elaboration) re-test it
+    if prog is not None:
+        out = [(sb, t) for sb, t in out if not any(sb2 != sb and prog.dominates(body, sb2, sb) for sb2, _ in out)]
+    return [t for _, t in out] or None
+
+
+def is_write_event(c, oo_names):
+    """A call that changes the content or the modification time of the output file: fs::write, File::create*, a truncating or
+    creating OpenOptions::open, set_len, and io::Write methods on a File handle.  Configuring an OpenOptions value or opening
+    an existing file read/write without truncation changes nothing yet."""
+    cal = c['callee']
+    if re.search(r'std::fs::write$|fs::File::create$|File::create_new$|fs::remove_file$|fs::rename$|fs::copy$|File::set_len$|fs::hard_link$', cal):
+        return True
+    if cal.endswith('OpenOptions::open'):
+        return bool(oo_names & {'truncate', 'create', 'create_new', 'append'})
+    if (c.get('declared') or '').startswith('std::io::Write::') and any('fs::File' in t for t in c.get('arg_tys', [])[:1]):
+        return True
+    return False
+
+
+def is_whole_read(c):
+    names = (c.get('declared') or '', c.get('callee') or '')
+    return any(n == r or n.endswith('::' + r.split('::', 1)[-1]) for n in names for r in WHOLE_READ)
+
+
+def truncating(prog, b, key, rep, name, site, writes):
+    """W5: the bytes of an earlier output never survive a rewrite.  Write primitives are fs::write / File::create (truncate by
+    contract) or a handle from an OpenOptions chain that is opened for writing with truncate(true) / create_new(true), never
+    append; a handle opened for writing without truncation is accepted only when the function itself cuts the file with
+    set_len(0) (manual truncation).  Looks through same-crate helpers of the writer."""
+    region = prog.region([key])
+    calls = [x for k2 in region if prog.bodies[k2]['id'] not in GEN_WRITERS or k2 == key for x in prog.bodies[k2]['calls']]
+    oo = [c for c in calls if 'OpenOptions' in c['callee']]
+    names = {c['callee'].split('::')[-1] for c in oo}
+    for_write = names & {'write', 'append', 'create', 'create_new', 'truncate'}
+    set_len0 = [c for c in calls if c['callee'].endswith('File::set_len') and c['args'][1:2] and re.match(r'const 0_u64', c['args'][1])]
+    if oo and for_write:
+        ok = ('truncate' in names or 'create_new' in names or bool(set_len0)) and 'append' not in names
+        rep.check(ok, 'W5', f'{name}:truncating', f'OpenOptions chain {sorted(names)}', f"{name} opens the output with OpenOptions {sorted(names)} — without truncate(true) a shorter new output leaves the tail of the previous file in place; with append the old content is kept", site)
+    else:
+        prim = sorted({c['callee'].split('::')[-1] for c in writes if 'OpenOptions' not in c['callee']})
+        rep.check(set(prim) <= {'write', 'create', 'write_all', 'flush', 'sync_all', 'sync_data'}, 'W5', f'{name}:truncating', f'{prim} (truncate by contract)', f'{name}: unexpected write primitives {prim}', site)
+    bad = [c for c in calls if c['callee'].endswith(('OpenOptions::append', 'fs::rename'))]
+    if not set_len0:
+        bad += [c for c in calls if c['callee'].endswith('File::set_len') or c.get('declared', '').endswith(('Seek::seek', 'Seek::rewind', 'Seek::seek_relative'))]
+    rep.check(not bad, 'W5', f'{name}:no-append-rename-seek', 'no append / rename; no seek or set_len other than a manual truncation to 0', f"{name} uses {[c['callee'] for c in bad][:2]} — repositioning inside or appending to the previous file keeps part of its content", site)
 
 
 def cmp_helper_contract(ctx, hb):
